@@ -31,7 +31,7 @@ def body(run, a):
         bs = bspec.PARAMS[v][3]
         lb = 2 * bspec.PARAMS[v][0] // 8
         edge = bs - 1 - lb
-        many = [2 * bs + 3] if v in (224, 256) else []      # 3-block continuations of the 64-bit-word variants do not normalise within reach (bound)
+        many = [2 * bs + 3]
         for p, n in ([(0, bs + 1), (edge + 1, 1)] + [(1, m) for m in many] if run.tier == 'quick' else [(p, n) for p in (0, 1, edge, edge + 1, bs - 1) for n in [1, bs, bs + 1] + many]):
             tasks.append(('blake', 'release-std', v, p, n))
         tasks.append(('blake', 'devchk-std', v, 0, bs + 1))
